@@ -470,3 +470,8 @@ _build_reflection = build
 def build(chk):
     _build_reflection(chk)
     build_units(chk)
+    # the leaf contracts the reflection proof instantiates: mirror clause of every 1-D flux (C02) incl. the HLLC selection
+    # contract, odd/symmetric limiters (C12)
+    from . import C02, C12
+    chk.include(C02, r"^(convection|burgers|shallowwater|euler1d)/.*/(mirror|selection)$", "uses:C02")
+    chk.include(C12, r"/scalar$", "uses:C12")
